@@ -115,16 +115,47 @@ func runC04(c *fw.C) {
 	if rootA == nil || c.Violated() {
 		return
 	}
-	// second route to the same contents
 	route := c.R.Intn(3)
-	d2 := NewDriver(c, "C04", cfg, 1)
+	d2 := buildByOtherRoute(c, d, route, nil)
+	if d2 == nil {
+		return
+	}
+	final := d.M
+	rootB, err := d2.T.MakeRoot(d2.E.Ctx)
+	if err != nil {
+		return
+	}
+	c.Obs("pairs_compared", 1)
+	checkCanonical(d2, rootB, "C04.canonical_root")
+	if !sameRoot(rootA, rootB) {
+		c.Violation("C04.same_contents_same_root", map[string]string{"route": fmt.Sprint(route)},
+			"two histories with identical contents (%d entries) produced roots %s and %s | cfg{%s}", final.Len(), rootStr(rootA), rootStr(rootB), cfg)
+	}
+	if int(rootA.Height) >= 1 {
+		c.NonTrivial(fw.Mix(fw.StrHash(cfg.String()), final.Fingerprint()))
+	}
+	if c.WantSample() && rootA.Height >= 1 && d.HadDelete {
+		c.Sample(map[string]interface{}{"config": cfg.String(), "entries": final.Len(), "root": rootStr(rootA), "second_route": route, "history_tail": tailOf(d.Hist, 30)})
+	}
+}
+
+// buildByOtherRoute reaches the contents of d's model on a fresh tree by a
+// different history: 0 = permuted inserts, 1 = superset then deletes (maybe
+// across a reload), 2 = fill, empty completely, rebuild in reverse order.
+// prep, if given, is applied to the second environment before use.
+func buildByOtherRoute(c *fw.C, d *Driver, route int, prep func(e *kinds.Env)) *Driver {
+	cfg := d.E.Cfg
+	d2 := NewDriver(c, d.ID, cfg, 1)
 	d2.E = d.E // same store is fine; also exercises cache sharing
 	if c.R.Chance(1, 2) {
 		d2.E = kinds.NewEnv(cfg)
+		if prep != nil {
+			prep(d2.E)
+		}
 	}
 	t2, err := d2.E.New()
 	if err != nil {
-		return
+		return nil
 	}
 	d2.T = t2
 	d2.Pool = d.Pool
@@ -152,7 +183,7 @@ func runC04(c *fw.C) {
 	case 0: // permuted inserts
 		for _, i := range perm {
 			if !ins(final.Keys[i], final.Vals[i]) {
-				return
+				return nil
 			}
 		}
 	case 1: // superset then delete the extras (possibly across a reload)
@@ -162,7 +193,7 @@ func runC04(c *fw.C) {
 				v = cfg.VK.Gen(c.R)
 			}
 			if !ins(k, v) {
-				return
+				return nil
 			}
 		}
 		if c.R.Chance(1, 2) {
@@ -172,19 +203,19 @@ func runC04(c *fw.C) {
 			k := d.Pool[i]
 			if _, ok := final.Get(k); !ok {
 				if !del(k) {
-					return
+					return nil
 				}
 			}
 		}
 	default: // fill, empty completely, rebuild in reverse order
 		for _, i := range perm {
 			if !ins(final.Keys[i], cfg.VK.Gen(c.R)) {
-				return
+				return nil
 			}
 		}
 		for _, i := range c.R.Perm(final.Len()) {
 			if !del(final.Keys[i]) {
-				return
+				return nil
 			}
 		}
 		if final.Len() > 0 {
@@ -192,29 +223,14 @@ func runC04(c *fw.C) {
 		}
 		for i := final.Len() - 1; i >= 0; i-- {
 			if !ins(final.Keys[i], final.Vals[i]) {
-				return
+				return nil
 			}
 		}
 	}
 	if d2.Failed || !d2.CheckFull("route") {
-		return
+		return nil
 	}
-	rootB, err := d2.T.MakeRoot(d2.E.Ctx)
-	if err != nil {
-		return
-	}
-	c.Obs("pairs_compared", 1)
-	checkCanonical(d2, rootB, "C04.canonical_root")
-	if !sameRoot(rootA, rootB) {
-		c.Violation("C04.same_contents_same_root", map[string]string{"route": fmt.Sprint(route)},
-			"two histories with identical contents (%d entries) produced roots %s and %s | cfg{%s}", final.Len(), rootStr(rootA), rootStr(rootB), cfg)
-	}
-	if int(rootA.Height) >= 1 {
-		c.NonTrivial(fw.Mix(fw.StrHash(cfg.String()), final.Fingerprint()))
-	}
-	if c.WantSample() && rootA.Height >= 1 && d.HadDelete {
-		c.Sample(map[string]interface{}{"config": cfg.String(), "entries": final.Len(), "root": rootStr(rootA), "second_route": route, "history_tail": tailOf(d.Hist, 30)})
-	}
+	return d2
 }
 
 func sameRoot(a, b *mast.Root) bool {
